@@ -214,6 +214,17 @@ def run_program_check(prop, tier, seed):
         S2 = summarize(prop, f2, g2)
         S["mine"] += S2["mine"]
         S["programs"] += S2["programs"]
+    extra = None
+    if prop in ("C08", "C17"):
+        # decision logic modelled in PW.Decide: function-level correspondence on crafted inputs
+        try:
+            import fn_decide
+            extra = fn_decide.run(prop, seed, thorough)
+            if extra["tie"]:
+                tie_problems.append(f"decision-logic correspondence (PW.Decide): {len(extra['tie'])} of {extra['cases']} cases differ, e.g. {extra['tie'][0]}")
+                print(f"[{prop}] correspondence (decision logic) BROKEN in {len(extra['tie'])} case(s): {extra['tie'][0][:200]}")
+        except Exception as ex:
+            tie_problems.append(f"decision-logic correspondence could not run: {type(ex).__name__}: {ex}")
     violations = 0
     if S["harness"]:
         f, prog = S["harness"][0]
@@ -226,6 +237,12 @@ def run_program_check(prop, tier, seed):
         print(f"[{prop}] {len(S['mine'])} program(s) violate the property; first: {f[1][:300]}")
         print(f"VIOLATION property={prop} replay={path}")
         violations = len(S["mine"])
+    elif extra and extra["violations"]:
+        msg, payload = extra["violations"][0]
+        path = CL.write_replay(prop, {"property": prop, "finding": msg, "input": payload, "how": f"harness/fn_decide.py {prop} (function-level: the crafted input is in this file)"})
+        print(f"[{prop}] {len(extra['violations'])} crafted input(s) violate the property; first: {msg[:300]}")
+        print(f"VIOLATION property={prop} replay={path}")
+        violations = len(extra["violations"])
     elif tie_problems:
         path = CL.write_replay(prop, {"property": prop, "broken": tie_problems, "note": "no failing input found; the property is no longer shown to hold",
                                       "routing_example": ({"mismatch": S["routes"][0][0], "program": S["routes"][0][1]} if S["routes"] else None)})
@@ -252,6 +269,10 @@ def run_program_check(prop, tier, seed):
         "proof_problems": tie_problems,
         "corpus_programs": len(fixed),
     }
+    if extra:
+        cov["decision_logic_cases"] = extra["cases"]
+        cov["decision_logic_histogram"] = extra["histogram"]
+        cov["decision_logic_mismatches"] = len(extra["tie"])
     CL.write_evidence(prop, tier, seed, cov, wall, violations, [
         "floating point: theorems are over exact rings; comparison tolerance 1e-7 (5e-3 after displacement/squeezing)",
         "generator avoids the cells listed as known findings (known_findings.json); they are replayed separately",
